@@ -180,12 +180,30 @@ def s2k(ctx, P):
             og = b.switch_origins(i)
             if has_origin(og, r'call:.*decode_count$') and has_origin(og, r'op:Lt$|op:Gt$|op:Le$|op:Ge$'):
                 # one edge assigns count from data_size (a local that is the sum of two lengths)
+                # ... and the value the count is compared with is the very value it is raised to (not, say, the passphrase length alone)
+                def root_local(o):
+                    for _ in range(6):
+                        if 'l' not in o or o['pr']:
+                            return None
+                        d = defs.get(o['l'])
+                        if d is None or d[1].get('k') == 'call' or d[1]['r']['k'] != 'use' or 'l' not in d[1]['r']['o'][0] or d[1]['r']['o'][0]['pr']:
+                            return o['l']
+                        o = d[1]['r']['o'][0]
+                    return None
+                cmp_other = None
+                for s0 in reversed(b.blocks[i]['s']):
+                    if s0['r']['k'] == 'bin' and s0['r']['op'] in ('Lt', 'Le', 'Gt', 'Ge'):
+                        for o in s0['r']['o']:
+                            if not has_origin(b.operand_origins(o), r'call:.*decode_count$'):
+                                cmp_other = root_local(o)
+                        break
                 for j, _ in b.succ(i):
                     for s in b.blocks[j]['s']:
                         if s['r']['k'] == 'use' and 'l' in s['r']['o'][0] and not s['d']['pr']:
                             src = b.origins()[s['r']['o'][0]['l']]
                             if has_origin(src, r'op:Add') and has_origin(src, r'call:.*::len$') and not has_origin(src, r'call:.*decode_count$'):
-                                clamp = True
+                                if cmp_other is not None and root_local(s['r']['o'][0]) == cmp_other:
+                                    clamp = True
         ctx.check(P + ':s2k:count-at-least-one-pass', 'R-dom', 'iterated S2K raises the decoded count to salt.len() + passphrase.len() when it is smaller (one full pass is always hashed)', clamp, function=b.path)
 
 
